@@ -14,6 +14,10 @@ CLAIMED = {
     text="Decides the property up to HashMap semantics and cookie collisions: crate-wide, every operation on a HashMap holding TCPControlBlock values lies in proto::tcb::{is_tcb_set,get_tcb,add_tcb}; the only growth operation is one insert behind !contains_key(same key); add_tcb has one call site, inside the flag arm that (by exhaustive evaluation of the 512 flag values) is selected only by PSH|ACK supersets, and every CFG path to it establishes generate(client_info,key) == ack-1 (mod 2^32); no table function is reachable from UDP/ICMP/ARP handling, from the application layer, or on any other TCP arm.",
     note="Does not decide 32-bit cookie collisions between flows, nor HashMap internals.",
     technique="who-may-call + must-pass-through gate reachability on MIR + decision-table extraction", ref="§4 C09"),
+ 'C19': dict(
+    text="Decided as a who-may-read property over the whole application-layer cone (every function reachable from proto::repl, resolved call graph incl. trait impls and closures): ClientInfo address/port/transport fields are read only by the three builders of address-bearing fields (STUN MAPPED-ADDRESS, portmapper, DNS A RDATA) and by the dispatcher (transport, cookie only); nothing there reads the Masscanned configuration; IP-address typed values exist only in those builders; no branch condition in the L2/L3/L4 functions depends on a port except through the SYN cookie; the payload handed to the dispatcher is the whole L4 payload on every path (UDP directly, TCP through the get_tcb callback that is invoked exactly once). This covers all 2^32 port pairs and both IP versions at once.",
+    note="Differences between TCP and datagram transport that the specification itself makes (incremental vs one-shot matching, DNS fallback) are outside C19. Wall-clock reads are listed by C08.",
+    technique="field read/write sets over the call-graph cone + branch-condition provenance slicing on MIR", ref="§4 C19"),
 }
 
 NOT_YET = {}
